@@ -42,12 +42,32 @@ CHECKS = {
         technique="Coq proof (monotonicity and sub-additivity of the covered count; transported through the C01 refinement) + oracle-free consistency pass",
         text="Theorems c07_total_ge_group/total_le_sum/order_le_sum_supers/super_le_order; every cell of every generated output checked for the four relations on reconstructed counts, plus model correspondence.",
         design="DESIGN.md 6 C07"),
+    "C08": dict(
+        technique="Coq proof (array position <-> labels: first/last-occurrence index functions return the labelled cell; genes of a file) + exhaustive queries through the real reader and table helpers",
+        text="Theorems c08_lookup/unknown/table/bijection/genes over the layout + reader model; every (gene, group, window, direction) query of every generated file through DensityData + get_specific_slice "
+             "and the add_* table helpers (gene table in its own row order) compared with the array cell of the labels and with the C01 value; group names differing by case / non-ASCII.",
+        design="DESIGN.md 6 C08"),
+    "C09": dict(
+        technique="Coq proof (swap of first-occurrence columns for duplicate-free minus names = strand-aware view, induction over the name list) + column-by-column comparison on real files",
+        text="Theorems c09_view/defined/minus/plus_or_unstranded/intra; result files x strand mixtures (all +, all -, '.', mixed, shuffled rows) x every constructor (incl. a GeneData in another row order), "
+             "each gene column of both TE levels classified against the raw arrays and compared with the model; raw file hashed before/after.",
+        design="DESIGN.md 6 C09"),
     "C11": dict(
         technique="Coq proof (invariant of a labelled transition system, induction over schedules, any k) + deterministic-scheduler replay on the real class",
         text="Theorems c11_all_collected/never_more/terminates for every number of results and every interleaving; legacy loop refuted (c11_legacy_refuted). "
              "Schedules enumerated from the model are replayed on the real _ProgressBars (instrumented queue/event, no hook) and compared with the model; CLI runs with many chromosomes count result files. "
              "Modelled: atomic steps = flag test, pop(+append), put, set; the GIL / Manager proxies / pool teardown are not modelled.",
         design="DESIGN.md 6 C11"),
+    "C15": dict(
+        technique="Coq proof (invariant of the load/crash state machine over all histories) + histories with kills and exceptions on real files",
+        text="Theorems c15_idempotent/raw_untouched over histories of loads through every constructor interleaved with loads interrupted at any step; legacy behaviours refuted. "
+             "Exhaustive constructor sequences (length <= 2 quick / 3 thorough) and first loads killed (fork + os._exit, with/without HDF5 flush) or interrupted by an exception at every step, followed by loads, on real files.",
+        design="DESIGN.md 6 C15"),
+    "C16": dict(
+        technique="Coq proof (pairing by stored chromosome id: sound, complete, rejects every mismatch; legacy sorted-name pairing refuted by computation) + name-set pools on real directories",
+        text="Theorems c16_paired/accepts/mismatch_is_error; chromosome-name pools around file-name sorting (prefix families, dots, punctuation, digits, case) -> real result directories -> both directory constructors, "
+             "recording which annotation each file received and what was served; tampered (mismatching) directories must be refused.",
+        design="DESIGN.md 6 C16"),
     "C18": dict(
         technique="Coq proof (rejection for every row position and surrounding content; results only after all checks) + malformed-input stream",
         text="Theorems c18_dup/strand/column/chroms/no_result over the model of the import checks (any position of the offending row); one defect inserted at first/last/random (thorough: every) row position "
